@@ -25,12 +25,17 @@ Versions == {4, 6}
 Perturbations == {"none", "content", "content_eol", "truncate", "extend", "version", "type", "pkalg", "hashalg",
                   "hashed_sub_value", "hashed_sub_type", "hashed_sub_critical", "hashed_area_len", "salt_value", "salt_len",
                   "left16", "sigvalue", "key_other", "key_same_material_other_version", "key_same_material_other_identity",
-                  "unhashed_area"}
+                  "unhashed_area",
+                  \* one-pass header in front of an inline signature disagrees with the signature packet
+                  "ops_type", "ops_hashalg", "ops_pkalg",
+                  \* signing subkey whose binding lacks the embedded back signature, or carries one made by another key
+                  "backsig_missing", "backsig_foreign"}
 
 Applicable(k, v, p) ==
   /\ (p = "content_eol" => k = "text")
   /\ (p \in {"salt_value", "salt_len"} => v = 6)
-  /\ (p \in {"truncate", "extend"} => k \in {"binary", "text"})
+  /\ (p \in {"truncate", "extend", "ops_type", "ops_hashalg", "ops_pkalg"} => k \in {"binary", "text"})
+  /\ (p \in {"backsig_missing", "backsig_foreign"} => k = "subkey_binding")
 
 (* the digest as a record of what went into it *)
 Digest(k, v, p) ==
@@ -47,6 +52,8 @@ DigestSame(d) == d.content = "same" /\ d.meta = "same" /\ d.salt = "same" /\ d.k
 (* ordered checks; returns the name of the first failing check or "accept" *)
 Verdict(k, v, p) ==
   IF p = "version" THEN "reject_parse_or_alignment"                  \* another version octet: different layout, and v6<->v4 alignment
+  ELSE IF p \in {"ops_type", "ops_hashalg", "ops_pkalg"} THEN "reject_ops_mismatch"   \* the hash is computed as the one-pass header says, the packet says otherwise
+  ELSE IF p \in {"backsig_missing", "backsig_foreign"} THEN "reject_backsig"
   ELSE IF p \in {"pkalg", "hashalg"} /\ ~HashMeta THEN "accept"
   ELSE IF ChkAlign /\ p = "key_same_material_other_version" THEN "reject_alignment"
   ELSE IF ChkIssuer /\ p \in {"key_other", "key_same_material_other_identity", "key_same_material_other_version"} THEN "reject_issuer"
